@@ -3,7 +3,10 @@ package main
 import (
 	"encoding/json"
 	"fmt"
+	"os"
+	"path/filepath"
 	"reflect"
+	"sort"
 	"strings"
 
 	"verifgen/hx"
@@ -14,7 +17,7 @@ func runC13(cfg *hx.Config) {
 	rep := hx.NewReport("records with defaulted fields of primitive / enum / record / array / map type, declared directly (Dflt), nested (DOuter, Big.dflt) or inherited through included records (Incl, Incl2), " +
 		"record-typed defaults whose literal is the empty object / a partial object / an object containing an empty object and whose record has defaults of its own (DEmp, DIn): " +
 		"documents obtained from a valid encoding by omitting every subset (<= 8 fields exhaustively, seeded otherwise) of the defaulted fields, decoded by the JSON, ROR2 and untyped readers; " +
-		"the generated New...WithDefaultValues constructors; freshness of default-populated arrays/maps across instances. " +
+		"the generated New...WithDefaultValues constructors (every instance, the first one and one constructed after the first was overwritten, is also compared with the model of the constructors); freshness of default-populated arrays/maps across instances. " +
 		"TYPED stream (untyped reader only): the value with zero values (0, false, \"\") forced into primitive leaves, restricted to the top-level fields of one JSON kind, handed to the untyped reader as a " +
 		"map with a CONCRETE element type (map[string]int32 / int64 / float64 / bool / string / map[string]T / []T, nested maps and slices typed too): a present zero wins over the default, " +
 		"absent fields carry the default. non-trivial = at least one defaulted field omitted; distinct by (type, reader, document)")
@@ -24,7 +27,7 @@ func runC13(cfg *hx.Config) {
 	if cfg.Thorough() {
 		n = 800
 	}
-	c13Types := []string{"Dflt", "DOuter", "Incl", "Incl2", "Big", "DElems", "DIn", "DEmp", "D1", "D2"}
+	c13Types := []string{"Dflt", "DOuter", "Incl", "Incl2", "Big", "DElems", "DIn", "DEmp", "D1", "D2", "G1"}
 	for _, tname := range c13Types {
 		t := ref(tname)
 		for i := 0; i < n; i++ {
@@ -152,19 +155,54 @@ func runC13(cfg *hx.Config) {
 			}
 		}
 	}
-	// constructors and freshness
-	for name, ctor := range constructors {
+	// constructors and freshness.  Every instance is also a case for the model of the constructors (Codec/Ctor.v through
+	// Corr/CtorCorr.v, root: Corr/RootCtorCorr.v): its own shard files under <out>/ctor, listed in the report's extra.ctor_shards
+	ctorDir := filepath.Join(cfg.Out, "ctor")
+	os.MkdirAll(ctorDir, 0o755)
+	ctorHeader, ctorModule := ctorCorr()
+	csh := hx.NewShards(ctorDir, ctorHeader, ctorModule, 8)
+	ctorNames := make([]string, 0, len(constructors))
+	for name := range constructors {
+		ctorNames = append(ctorNames, name)
+	}
+	sort.Strings(ctorNames)
+	addCtorCase := func(name, when string, inst *Val, panicked interface{}) {
+		obs := "None"
+		if inst != nil {
+			obs = "(Some " + inst.Coq() + ")"
+		}
+		csh.Add(fmt.Sprintf("{| k_rec := %d; k_parse := %s; k_obs := %s |}", schema.EnvIndex[name], coqParseTable(baseTexts), obs),
+			map[string]interface{}{"mode": "c13-ctor", "type": name, "constructor": "New" + name + "WithDefaultValues", "when": when,
+				"constructed": inst.fixJSON(), "panic": fmt.Sprint(panicked)})
+		rep.Count("constructor-case=" + when)
+	}
+	for _, name := range ctorNames {
+		ctor := constructors[name]
 		t := ref(name)
-		a := reflect.ValueOf(ctor).Call(nil)[0]
-		b := reflect.ValueOf(ctor).Call(nil)[0]
+		call := func() (v reflect.Value, p interface{}) {
+			defer func() { p = recover() }()
+			return reflect.ValueOf(ctor).Call(nil)[0], nil
+		}
+		a, pa := call()
+		b, pb := call()
+		rep.Evaluations++
+		if pa != nil || pb != nil {
+			addCtorCase(name, "first", nil, pa)
+			rep.Fail("defaults:constructor-panics", "New...WithDefaultValues panics", "v2/codegen/types/record.go:GeneratePopulateDefaultValues",
+				map[string]interface{}{"type": name}, fmt.Sprint(pa, pb))
+			continue
+		}
 		va := schema.fromGo(t, a.Elem())
+		addCtorCase(name, "first", va, nil)
 		zero := schema.fromGo(t, reflect.New(registry[name]).Elem())
 		want := schema.fillDefaultsCtor(t, zero)
-		rep.Evaluations++
 		cd := map[string]interface{}{"type": name, "constructed": va.fixJSON()}
 		if !valEq(va, want) {
 			if valEq(va, schema.fill2(t, zero, false, true)) {
 				rep.Fail("defaults:included-record-defaults-not-filled", "New...WithDefaultValues does not apply the defaults of included records", "v2/codegen/types/record.go:GeneratePopulateDefaultValues", cd, nil)
+			} else if valEq(va, schema.ctorAsGenerated(t, zero, want)) {
+				rep.Fail("defaults:constructor-skips-record-without-own-defaults", "New...WithDefaultValues does not default-construct a required record field whose record declares no default itself: the defaults below it are missing",
+					"v2/codegen/types/record.go:GeneratePopulateDefaultValues (record.hasDefaultValue looks at own fields only)", cd, nil)
 			} else {
 				rep.Fail("defaults:constructor-wrong", "New...WithDefaultValues does not carry the schema defaults", "v2/codegen/types/record.go:GeneratePopulateDefaultValues", cd, nil)
 			}
@@ -176,11 +214,22 @@ func runC13(cfg *hx.Config) {
 		if !valEq(before, after) {
 			rep.Fail("defaults:shared-between-instances", "mutating a default-populated collection of one instance changed another instance", "v2/codegen/types/record.go:setDefaultValue", cd, nil)
 		}
-		fresh := reflect.ValueOf(ctor).Call(nil)[0]
-		if !valEq(before, schema.fromGo(t, fresh.Elem())) {
+		fresh, pf := call()
+		if pf != nil {
+			addCtorCase(name, "after-mutation", nil, pf)
+			rep.Fail("defaults:constructor-panics", "New...WithDefaultValues panics", "v2/codegen/types/record.go:GeneratePopulateDefaultValues",
+				map[string]interface{}{"type": name}, fmt.Sprint(pf))
+			continue
+		}
+		vf := schema.fromGo(t, fresh.Elem())
+		addCtorCase(name, "after-mutation", vf, nil)
+		if !valEq(before, vf) {
 			rep.Fail("defaults:shared-between-instances", "an instance constructed after another one was mutated does not carry the pristine defaults", "v2/codegen/types/record.go:setDefaultValue", cd, nil)
 		}
 	}
+	csh.Close()
+	rep.Extra["ctor_shards"] = csh.Files
+	rep.Extra["ctor_records"] = ctorNames
 	sh.Close()
 	rep.Shards = sh.Files
 	rep.Write(cfg.Out)
